@@ -97,7 +97,73 @@ def camel(key):
     return words[0] + "".join(w.title() for w in words[1:])
 
 
+def gen_fast_hierarchy_case(rng, tier, idx):
+    """FastSerializable hierarchies that refer to each other: a fast root, 1-2 fast subclasses that add
+    fields, 1-2 owner classes (fast or not) with direct / Array / optional ClassReference fields to them,
+    possibly an owner of an owner; then uses in random order, incl. create_serializer with flags and
+    instantiation without the optional references.  Outside the Lean model's vocabulary (oracle-only)."""
+    prims = prim_table()
+    fast_tags = [t for t in range(X.N_PRIMS) if prims[str(t)]["fastOk"] and not prims[str(t)]["inlines"]]
+    used = set()
+
+    def prim_field(default_ok=True):
+        free = [n for n in NAME_POOL + ["level", "ref_no", "amount"] if n not in used]
+        name = rng.choice(free)
+        used.add(name)
+        tag = rng.choice(fast_tags)
+        f = {"name": name, "kind": {"prim": tag}, "key": ("m_" + name) if rng.random() < 0.25 else name}
+        if default_ok and prims[str(tag)]["defaultable"] and rng.random() < 0.3:
+            f["default"] = True
+        return f
+
+    def cls(name, fields, fast, parent=None):
+        return {"name": name, "parent": parent, "fields": fields, "fast": fast,
+                "addProps": rng.choice([None, None, False]), "ignoreNone": rng.random() < 0.2}
+    srcs = [cls("Account", [prim_field(False) for _ in range(rng.randint(1, 2))], True)]
+    fastc = [0]
+    for _ in range(rng.randint(1, 2)):
+        par = rng.choice(fastc)
+        srcs.append(cls(rng.choice(["Premium", "Account", "Gold"]), [prim_field() for _ in range(rng.randint(1, 2))],
+                        True, {"kind": "inherit", "c": par}))
+        fastc.append(len(srcs) - 1)
+    for _ in range(rng.randint(1, 2)):
+        fast = rng.random() < 0.7
+        tgts = [c for c in range(len(srcs)) if srcs[c]["fast"]]
+        fields = [prim_field()]
+        for _ in range(rng.randint(1, 2)):
+            free = [n for n in ["account", "owner", "backup", "items"] if n not in used]
+            if not free:
+                break
+            name = rng.choice(free)
+            used.add(name)
+            tgt = rng.choice(tgts[1:] if len(tgts) > 1 and rng.random() < 0.7 else tgts)
+            arr = rng.random() < 0.25
+            f = {"name": name, "kind": {"ref": tgt, "arr": arr}, "key": name}
+            if not arr and rng.random() < 0.5:
+                f["opt"] = True
+            fields.append(f)
+        rng.shuffle(fields)
+        srcs.append(cls(rng.choice(["Order", "Order", "Invoice"]), fields, fast))
+    ops = [{"op": "define", "c": c, "src": s} for c, s in enumerate(srcs)]
+    n = len(srcs)
+    for _ in range(rng.randint(2, 6 if tier == "quick" else 12)):
+        c = rng.randrange(n)
+        kind = rng.choice(["construct", "construct", "serialize", "createSerializer", "createSerializer",
+                           "deserialize", "toSchema", "trusted"])
+        op = {"op": kind, "c": c, "probe": "valid"}
+        if kind in ("construct", "serialize", "deserialize") and rng.random() < 0.5:
+            op["probe"] = "required"      # minimal instance: optional references omitted, arrays of classes empty
+        if kind == "createSerializer" and rng.random() < 0.35:
+            op["flags"] = {rng.choice(["serialize_none", "compact"]): True}
+        if kind in ("serialize", "deserialize") and rng.random() < 0.3:
+            op["camel"] = True
+        ops.append(op)
+    return {"suite": "world", "types": [], "ops": ops, "n": idx}
+
+
 def gen_case(rng, tier, idx):
+    if rng.random() < 0.2:
+        return gen_fast_hierarchy_case(rng, tier, idx)
     prims = prim_table()
     n_types = rng.randint(1, 4)
     types = [{"id": i, "name": rng.choice(TYPE_NAMES[:2] if rng.random() < 0.7 else TYPE_NAMES)} for i in range(n_types)]
@@ -107,6 +173,13 @@ def gen_case(rng, tier, idx):
     fast = {}
     defines = []
     fcount = [0]
+    # a quarter of the histories are about FastSerializable hierarchies that refer to each other: classes
+    # (fast or not) with direct / Array ClassReference fields to FastSerializable classes and their
+    # subclasses, optional reference fields, create_serializer flags.  The Lean model does not follow
+    # references through create_serializer, so these histories are judged by the oracle alone.
+    fastrefs = rng.random() < 0.08
+
+    fast_owner = [False]
 
     def fresh_name(taken):
         """snake_case names (so camel_case_convert matters); half of them from a small pool, so that
@@ -122,7 +195,15 @@ def gen_case(rng, tier, idx):
         r = rng.random()
         f = {"name": fresh_name(taken)}
         plain = [d for d in range(c) if not fast[d]]
-        if r < 0.32 and types:
+        fastcls = [d for d in range(c) if fast[d]]
+        if fastrefs and fastcls and r < 0.45 and (allow_ref or fast_owner[0]):
+            arr = rng.random() < 0.25
+            f["kind"] = {"ref": rng.choice(fastcls), "arr": arr}
+            if not arr and rng.random() < 0.5:
+                f["opt"] = True
+            f["key"] = f["name"]
+            return f
+        if r < 0.32 and types and not (fastrefs and fast_owner[0]):
             f["kind"] = {"wrap": rng.choice(types)["id"], "arr": rng.random() < 0.5}
         elif r < 0.42 and allow_ref and plain:
             tgt = rng.choice(plain)
@@ -131,6 +212,8 @@ def gen_case(rng, tier, idx):
             f["kind"] = {"refs": rng.sample(plain, 2)}      # positional Array of two Structure item types
         else:
             tag = rng.randrange(X.N_PRIMS)
+            if fastrefs and fast_owner[0]:
+                tag = rng.choice([t for t in range(X.N_PRIMS) if prims[str(t)]["fastOk"]])
             f["kind"] = {"prim": tag}
             if allow_default and prims[str(tag)]["defaultable"] and rng.random() < 0.45:
                 f["default"] = True
@@ -154,7 +237,7 @@ def gen_case(rng, tier, idx):
         src = {"name": rng.choice(CLASS_NAMES), "parent": parent, "fields": [], "fast": False,
                "addProps": rng.choice([None, None, None, True, False]), "ignoreNone": rng.random() < 0.3}
         if parent is None:
-            src["fast"] = rng.random() < 0.3
+            src["fast"] = rng.random() < (0.6 if fastrefs else 0.3)
             nf = rng.randint(1, 3)
         elif parent["kind"] == "inherit":
             src["fast"] = fast[parent["c"]]
@@ -165,6 +248,7 @@ def gen_case(rng, tier, idx):
             src["ignoreNone"] = False
             src["name"] = rng.choice(CLASS_NAMES)
         inherited = list(fieldnames[parent["c"]]) if parent else []
+        fast_owner[0] = src["fast"]
         for _ in range(nf):
             taken = inherited + [f["name"] for f in src["fields"]]
             src["fields"].append(gen_field(c, allow_ref=not src["fast"], allow_default=True, taken=taken))
@@ -208,6 +292,10 @@ def gen_case(rng, tier, idx):
             op = {"op": kind, "c": c, "probe": "empty" if rng.random() < 0.15 else "valid"}
             if kind in ("serialize", "deserialize") and rng.random() < 0.4:
                 op["camel"] = True       # use-parameter camel_case_convert
+            if fastrefs and kind == "createSerializer" and rng.random() < 0.4:
+                op["flags"] = {rng.choice(["serialize_none", "compact"]): True}
+            if fastrefs and kind == "construct" and rng.random() < 0.4:
+                op["probe"] = "required"
             ops.append(op)
             n_use -= 1
     if rng.random() < 0.7:       # usually restore the global defaults at the end
@@ -278,6 +366,33 @@ def directed_cases():
         {"op": "define", "c": 0, "src": a}, {"op": "define", "c": 1, "src": b},
         {"op": "define", "c": 2, "src": cls("Line", [fld("first", {"ref": 0, "arr": True}), fld("second", {"ref": 1, "arr": False})])},
         {"op": "serialize", "c": 2, "probe": "valid"}, {"op": "toSchema", "c": 2, "probe": "valid"}]})
+    # region: FastSerializable hierarchies that refer to each other.  Base <- Derived (adds a field),
+    # Owner (fast or not) with a direct / Array reference to Derived or Base, optional or not; the
+    # serializers are generated in every order (instantiation, create_serializer with and without
+    # flags, Owner instantiated without the optional reference) before the first Derived instance exists
+    base_ = cls("Account", [fld("id", {"prim": 0})], fast=True)
+    der_ = cls("Premium", [fld("level", {"prim": 2})], fast=True, parent={"kind": "inherit", "c": 0})
+    for owner_fast in (True, False):
+        for tgt in (1, 0):
+            for arr in (False, True):
+                ref = fld("account", {"ref": tgt, "arr": arr})
+                if not arr:
+                    ref["opt"] = True
+                own_ = cls("Order", [fld("ref_no", {"prim": 2}), ref], fast=owner_fast)
+                defs = [{"op": "define", "c": 0, "src": base_}, {"op": "define", "c": 1, "src": der_},
+                        {"op": "define", "c": 2, "src": own_}]
+                for hist in (
+                        [("construct", 0, {}), ("createSerializer", 2, {})],
+                        [("createSerializer", 0, {}), ("construct", 2, {"probe": "required"})],
+                        [("createSerializer", 2, {}), ("createSerializer", tgt, {"flags": {"serialize_none": True}})],
+                        [("createSerializer", tgt, {"flags": {"serialize_none": True}}), ("createSerializer", 2, {})],
+                        [("createSerializer", 2, {}), ("createSerializer", tgt, {"flags": {"compact": True}})],
+                        [("serialize", 0, {}), ("serialize", 2, {}), ("construct", 1, {})],
+                        [("construct", 0, {}), ("serialize", 2, {"probe": "required"})],
+                        [("serialize", 2, {"probe": "required"}), ("createSerializer", tgt, {"flags": {"serialize_none": True}})],
+                        [("construct", 2, {"probe": "required"}), ("construct", 0, {}), ("createSerializer", 1, {})]):
+                    out.append({"suite": "world", "types": [], "n": -1, "ops": defs + [
+                        dict({"op": k, "c": c_, "probe": "valid"}, **extra) for k, c_, extra in hist]})
     # region: every derivation operator applied to a class with optional, defaulted and renamed fields; the
     # source class is used before and after
     src_ = cls("S", [fld("a", {"prim": 0}, key="m_a"), fld("b", {"prim": 2}, default=True),
@@ -328,9 +443,32 @@ def deps_of(case, c):
 
 
 def slice_ops(case, keep):
-    """the definitions of `keep` and every global-default toggle, in history order (no use of any class)"""
-    return [op for op in case["ops"]
-            if (op["op"] == "define" and op["c"] in keep) or op["op"] == "setDefault"]
+    """the definitions of `keep`, every global-default toggle and every explicit serializer CONFIGURATION
+    of a class in `keep` (create_serializer with serialize_none / compact is documented to change how that
+    class serializes; a later plain create_serializer on the same class resets it), in history order; no
+    other use of any class"""
+    out, configured = [], set()
+    for op in case["ops"]:
+        if (op["op"] == "define" and op["c"] in keep) or op["op"] == "setDefault":
+            out.append(op)
+        elif op["op"] == "createSerializer" and op["c"] in keep and (op.get("flags") or op["c"] in configured):
+            out.append(op)
+            configured.add(op["c"])
+    return out
+
+
+def oracle_only(case):
+    """histories outside the model's vocabulary (see gen_case): judged on the real code alone"""
+    fastc = {op["c"] for op in case["ops"] if op["op"] == "define" and op["src"].get("fast")}
+    for op in case["ops"]:
+        if op["op"] == "define":
+            for f in op["src"]["fields"]:
+                k = f["kind"]
+                if f.get("opt") or ("ref" in k and k["ref"] in fastc) or ("refs" in k and set(k["refs"]) & fastc):
+                    return True
+        elif op.get("flags") or op.get("probe") == "required":
+            return True
+    return False
 
 
 def class_ids(case):
@@ -452,6 +590,8 @@ def valid_args(srcs, c):
 
 
 def line(case, impl):
+    if oracle_only(case):
+        return None
     prims = impl.get("prims") or prim_table()
     names = {t["id"]: t["name"] for t in case["types"]}
     ops = []
@@ -528,6 +668,17 @@ def judge(case, impl, model):
         d = fp_diff(a, b) if (a is not None or b is not None) else None
         if d:
             real_interf[c] = d
+    if model is None:      # oracle-only history (outside the model's vocabulary)
+        srcs = srcs_of(case)
+        fastc = {c for c, s_ in srcs.items() if s_.get("fast")}
+        for c, d in sorted(real_interf.items()):
+            # a class that (transitively) holds an Array of a FastSerializable class is in the region of the
+            # listed finding "Array.serialize freezes the item class's serialize at its first call"
+            arr = any(f["kind"].get("arr") and f["kind"].get("ref") in fastc
+                      for k in impl["closures"].get(str(c), [c]) if k in srcs for f in flat_fields(srcs, k))
+            key = "early-bound:cls.serialize:Array.serialize" if arr else "unexplained-interference"
+            fails.append((key, f"class {c} ({case_name(case, c)}) behaves differently after the history than alone: {d}"))
+        return None, fails
     # ---- correspondence with the Lean World model
     msteps = model.get("steps", [])
     if len(msteps) != len(hist["steps"]):
@@ -612,6 +763,7 @@ def case_name(case, c):
 
 def tags(case, impl, model):
     out = ["ops:%d" % min(30, 5 * (len(case["ops"]) // 5))]
+    out.append("oracle-only" if oracle_only(case) else "modelled")
     for op in case["ops"]:
         out.append("op:" + op["op"])
         if op["op"] == "define":
